@@ -1,3 +1,6 @@
+import IsobarV.Midi.Drv
+import IsobarV.Notation.Drv
+import IsobarV.IO.Drv
 import IsobarV.Pat.Drv
 import IsobarV.Tonal.Drv
 import IsobarV.Sched.Drv
@@ -7,4 +10,7 @@ def main (args : List String) : IO UInt32 := do
   | ["sched"] => IsobarV.Sched.Drv.main; return 0
   | ["tonal"] => IsobarV.Tonal.Drv.main; return 0
   | ["pat"] => IsobarV.Pat.Drv.main; return 0
+  | ["io"] => IsobarV.IO.Drv.main; return 0
+  | ["notation"] => IsobarV.Notation.Drv.main; return 0
+  | ["midi"] => IsobarV.Midi.Drv.main; return 0
   | _ => IO.eprintln s!"usage: driver <suite>; unknown: {args}"; return 2
